@@ -9,7 +9,9 @@ VERIF*/
 #define DQ_STUB_TARGET 1
 #include "contracts/common/dq_common.h"
 enum { K_PRI_INHERIT = 140, K_WLH_INHERIT, K_SIDE_LOCK, K_SIDE_UNLOCK };
-struct dispatch_lane_s H_new_tq, H_old_tq, H_subst_tq; _Bool H_subst;
+struct dispatch_lane_s H_other_tq, H_old_tq, H_subst_tq; _Bool H_subst, H_same;
+/* the requested target may be the queue's CURRENT target (a redundant retarget): the caller has retained it all the same */
+#define H_new_tq (*(H_same ? &H_old_tq : &H_other_tq))
 static dispatch_queue_t _dispatch_queue_priority_inherit_from_target(dispatch_lane_class_t dq, dispatch_queue_t tq)
 { __verif_event(K_PRI_INHERIT, 0, dq._dl, (unsigned long long)(uintptr_t)tq, 0); return H_subst ? (dispatch_queue_t)&H_subst_tq : tq; }
 static void _dispatch_lane_inherit_wlh_from_target(dispatch_lane_t dq, dispatch_queue_t tq) { __verif_event(K_WLH_INHERIT, 0, dq, (unsigned long long)(uintptr_t)tq, 0); }
@@ -20,20 +22,22 @@ static inline dispatch_queue_t _dispatch_queue_get_current(void) { return (dispa
 VERIF_CONTRACT_VOID(_dispatch_lane_legacy_set_target_queue, (void *ctxt),
   REQ(ctxt == (void *)&H_new_tq && __verif_n == 0 && H_lane.do_targetq == (dispatch_queue_t)&H_old_tq && !(H_lane.dq_atomic_flags & DQF_TARGETED))
   ASG(VERIF_GHOST, H_lane.do_targetq)
-  ENS(log_bounded, __verif_n == 3 || __verif_n == 5)
+  ENS(log_bounded, __verif_n >= 1 && __verif_n <= 5 && (H_same || __verif_n == 3 || __verif_n == 5))
   /* the role / work-loop inheritance is computed FROM THE NEW TARGET (the one the queue will actually drain on), before the pointer is switched */
-  ENS(role_is_inherited_from_the_new_target, LOGK(0) == K_PRI_INHERIT && LOGA(0) == (unsigned long long)(uintptr_t)&H_new_tq && LOGK(1) == K_WLH_INHERIT && LOGP(1) == (void *)H_DQ && LOGA(1) == (unsigned long long)(uintptr_t)FINAL_TQ)
-  ENS(target_pointer_is_switched_to_the_new_target, H_lane.do_targetq == FINAL_TQ && VIMPL(__verif_n == 5, LOGK(2) == K_SIDE_LOCK && LOGK(3) == K_SIDE_UNLOCK))
+  ENS(role_is_inherited_from_the_new_target, H_same || (LOGK(0) == K_PRI_INHERIT && LOGA(0) == (unsigned long long)(uintptr_t)&H_new_tq && LOGK(1) == K_WLH_INHERIT && LOGP(1) == (void *)H_DQ && LOGA(1) == (unsigned long long)(uintptr_t)FINAL_TQ))
+  ENS(target_pointer_is_switched_to_the_new_target, (H_same && H_lane.do_targetq == (dispatch_queue_t)&H_old_tq) || (H_lane.do_targetq == FINAL_TQ && VIMPL(__verif_n == 5, LOGK(2) == K_SIDE_LOCK && LOGK(3) == K_SIDE_UNLOCK)))
   /* the reference the queue held on its OLD target is dropped last (the new one was retained by the caller before the barrier was queued) */
+  /* ... also when the new target IS the old one: the caller's retain on it must be balanced here, or every redundant retarget leaks a reference and the target is never finalized */
   ENS(old_target_is_released_exactly_once_after_the_switch, LOGK(LAST) == EV_RELEASE && LOGP(LAST) == (void *)&H_old_tq && LOGA(LAST) == 1)
 )
 void harness(void)
 {
-	h_setup_lane(); H_subst = ND_BOOL();
+	h_setup_lane(); H_subst = ND_BOOL(); H_same = ND_BOOL();
 	*(uint16_t *)&H_lane.__dq_opaque2 = 0;
 	H_lane.do_targetq = (dispatch_queue_t)&H_old_tq;
 	_dispatch_lane_legacy_set_target_queue(&H_new_tq);
 	VERIF_POST_VOID(_dispatch_lane_legacy_set_target_queue, &H_new_tq);
+	VERIF_REACH(redundant_retarget, H_same);
 	VERIF_CANARY();
 }
 #endif
